@@ -9,6 +9,7 @@
 import YashModel.Common.Proto
 import YashModel.Pipe.Model
 import YashModel.Pipe.Spec
+import YashModel.Pipe.Fds
 open YashModel YashModel.Pipe YashModel.Proto
 
 abbrev Byte := Nat
@@ -259,10 +260,128 @@ def runSh (ws : List String) : String :=
     | some x => showFlow x
     | none => "stuck") ++ "\t=" ++ showFlow spec
 
+/-! ### descriptor choreography (`fd` cases) -/
+
+/-- descriptor table of the shell after the prologue: 0 all open, 1 `exec <&-`, 2 `exec >&-`,
+    3 both, 4 `exec 2>&-` -/
+def initTable (pro : Nat) : Table := fun fd =>
+  let closed : List Nat := match pro with
+    | 1 => [0] | 2 => [1] | 3 => [0, 1] | 4 => [2] | _ => []
+  if fd < 3 && !closed.contains fd then some .file else none
+
+/-- `pipe()`: the two lowest unused descriptors -/
+def alloc2 (t : Table) : Fd × Fd :=
+  let r := t.minUnused 64 0
+  (r, (t.set r (some .file)).minUnused 64 0)
+
+/-- `fdsnap`: open descriptors 0..39, pipes numbered in order of first appearance -/
+def snapshot (t : Table) : String :=
+  let rec go (fds : List Nat) (seen : List Nat) (acc : List String) : List String :=
+    match fds with
+    | [] => acc.reverse
+    | fd :: rest =>
+      match t fd with
+      | none => go rest seen acc
+      | some .file => go rest seen (s!"{fd}:f" :: acc)
+      | some (.pr p) =>
+        let seen' := if seen.contains p then seen else seen ++ [p]
+        go rest seen' (s!"{fd}:r{(seen'.idxOf p) + 1}" :: acc)
+      | some (.pw p) =>
+        let seen' := if seen.contains p then seen else seen ++ [p]
+        go rest seen' (s!"{fd}:w{(seen'.idxOf p) + 1}" :: acc)
+  let l := go (List.range 40) [] []
+  if l.isEmpty then "-" else ",".intercalate l
+
+/-- no descriptor other than the expected ones refers to pipe `p` -/
+def noStray (t : Table) (p : Nat) (rAt wAt : Option Nat) : Bool :=
+  (List.range 40).all fun fd =>
+    (t fd != some (.pr p) || rAt == some fd) && (t fd != some (.pw p) || wAt == some fd)
+
+/-- the child of a command substitution started from table `t` (pipe number `p`):
+    its table and whether it is connected as the property needs -/
+def substRun (t : Table) (p : Nat) : Table × Bool :=
+  let (r, w) := alloc2 t
+  match substChild (t.pipe p r w) r w with
+  | none => (t, false)
+  | some c => (c, c 1 == some (.pw p) && noStray c p none (some 1))
+
+/-- the members of a `k`-stage pipeline started from table `t` (pipes numbered from `p0`):
+    each member's table and whether it is connected -/
+def pipeRun (t : Table) (k p0 : Nat) : List (Table × Bool) :=
+  let rec go (i fuel : Nat) (ps : PipeSet) (t : Table) (acc : List (Table × Bool)) : List (Table × Bool) :=
+    match fuel with
+    | 0 => acc.reverse
+    | fuel + 1 =>
+      let hasNext := i + 1 < k
+      let (ps', t') :=
+        if hasNext then
+          let (r, w) := alloc2 (ps.shiftClose t).2
+          ps.shiftOpen t (p0 + i) r w
+        else ps.shiftClose t
+      let d := match ps'.next with
+        | some (reader, _) => (t'.close reader).minUnused 64 0
+        | none => 0
+      let member := match ps'.moveToStdinStdout t' d with
+        | none => (t', false)
+        | some c =>
+          let inOk := i == 0 || (c 0 == some (.pr (p0 + i - 1)) && noStray c (p0 + i - 1) (some 0) none)
+          let outOk := !hasNext || (c 1 == some (.pw (p0 + i)) && noStray c (p0 + i) none (some 1))
+          (c, inOk && outOk)
+      go (i + 1) fuel ps' t' (member :: acc)
+  go 0 k {} t []
+
+def runFd (ws : List String) : String :=
+  let n := kvNat ws "n"
+  let p := payload n (kvNat ws "pat") 0 (kvNat ws "nl")
+  let form := (kv ws "form").getD "subst"
+  let t0 := initTable (kvNat ws "pro")
+  let tr (x : List Byte) : Option (List Byte) := transfer 17 0 0 x
+  -- (snapshots by key, all children connected, value if connected)
+  let (snaps, ok, value) : List (Nat × Table) × Bool × Option (List Byte) :=
+    match form with
+    | "subst" =>
+      let (c, ok) := substRun t0 1
+      ([(0, c)], ok, (tr p).map (trimEnd 10))
+    | "nest" =>
+      let (c0, ok0) := substRun t0 1
+      let (c1, ok1) := substRun c0 2
+      ([(0, c0), (1, c1)], ok0 && ok1,
+        do let inner ← tr p
+           let outer ← tr (trimEnd 10 inner ++ [10])
+           pure (trimEnd 10 outer))
+    | "pipe2" | "pipe3" | "pipe4" =>
+      let k := if form == "pipe2" then 2 else if form == "pipe3" then 3 else 4
+      let ms := pipeRun t0 k 1
+      ((List.range ms.length).zip (ms.map (·.1)), ms.all (·.2), stages (fun x => (tr x).getD []) (k - 1) p)
+    | "substpipe" =>
+      let (c, ok) := substRun t0 1
+      let ms := pipeRun c 2 2
+      ((List.range ms.length).zip (ms.map (·.1)) ++ [(9, c)], ok && ms.all (·.2),
+        do let a ← tr p
+           let b ← tr a
+           pure (trimEnd 10 b))
+    | "pipesubst" =>
+      let ms := pipeRun t0 2 1
+      let m1 := (ms.getD 1 (t0, false)).1
+      let (c, ok) := substRun m1 3
+      ((List.range ms.length).zip (ms.map (·.1)) ++ [(2, c)], ok && ms.all (·.2),
+        do let a ← tr p
+           let b ← tr a
+           pure (trimEnd 10 b ++ [10]))
+    | _ => ([], false, none)
+  let snapTxt := " ".intercalate (snaps.map fun (k, t) => s!"{k}={snapshot t}")
+  -- a child that is not connected to its pipe delivers nothing
+  let value := if ok then value else some []
+  let obs := match value with
+    | some x => s!"{snapTxt} {showFlow x}"
+    | none => "stuck"
+  obs ++ "\t" ++ (if ok then "ok" else "FAIL:child-not-connected")
+
 def runLine (line : String) : String :=
   match words line with
   | "xfer" :: ws => runXfer ws
   | "sh" :: ws => runSh ws
+  | "fd" :: ws => runFd ws
   | _ => runOps line
 
 def main : IO Unit := mainLoop runLine
